@@ -319,6 +319,10 @@ package plush
 // the caller's scope), whatever the number of parameters
 //@ ghost child = callresult after New#1
 //@ assert freshscope: calls(New) == 1 && c.ctx == child && callarg1 == node.Block before evalBlockStatement#1
+// C16: every parameter is bound, in order, to the value of the argument in the same position - nil
+// included (a nil argument must hide a same-named variable of an enclosing scope)
+//@ loop 2: invariant bound: calls(Set) == ridx2
+//@ assert binds: callarg1 == p.Value && callarg2 == vals[i__2] before Set#*
 //@ errprop
 //@ assigns c.ctx, c.curStmt, c.fnDepth, mapsof("map[string]interface{}"), fresh
 //@ loop 1: invariant callerscope: cctx(c) && c.ctx == old(c.ctx) && len(vals) == len(node.Parameters) && len(args) >= len(node.Parameters) && 0 <= ridx1
